@@ -1,7 +1,7 @@
 // Package c12: hooks run in weight order, gate the operation, and honour delete policies.
 //
 // What is executed: real install / upgrade / rollback / uninstall histories against the simulated
-// API server with generated hook sets (0-3 hooks per lifecycle event and chart version, hooks bound
+// API server with generated hook sets (0-4 hooks per lifecycle event and chart version, hooks bound
 // to several events; weights negative / equal / non-numeric / absent; hook names whose order
 // differs from the order of the files that define them, sometimes two hooks per file; kinds
 // ConfigMap / Job / Pod / ServiceAccount; every subset of the three delete policies). Every history
@@ -65,7 +65,7 @@ func init() {
 	core.Register(&core.Prop{
 		ID:    "C12",
 		Level: "fault_enumeration",
-		Rule: "per hook-set seed: two chart versions with independently generated hook sets (0-3 hooks per event, multi-event hooks, weights incl. negative/equal/non-numeric, all 8 delete-policy subsets, 4 kinds, name order != file order) and one of 5 history shapes over install/upgrade/rollback/uninstall (some ops with hooks disabled), on memory and secrets storage; one fault-free run plus one run per single hook failure (each hook create rejected once, each hook readiness failing once) of every op; all ops of every run are judged. " +
+		Rule: "per hook-set seed: two chart versions with independently generated hook sets (0-4 hooks per event, multi-event hooks, weights incl. negative/equal/non-numeric, all 8 delete-policy subsets, 4 kinds, name order != file order) and one of 5 history shapes over install/upgrade/rollback/uninstall (some ops with hooks disabled), on memory and secrets storage; one fault-free run plus one run per single hook failure (each hook create rejected once, each hook readiness failing once) of every op; all ops of every run are judged. " +
 			"distinct_nontrivial counts distinct (op kind, event, number of hooks in the event, failure kind, policy set of the failing hook, leftover-present) tuples among judged events that ran at least one hook.",
 		Assumptions: []string{
 			"the simulated API server applies requests like a real API server; its request log and the scripted waiter share one logical clock",
@@ -81,9 +81,9 @@ func init() {
 }
 
 func genCases(seed int64, tier string) []core.Case {
-	n, drivers := 24, []string{"memory", "secrets"}
+	n, drivers := 40, []string{"memory", "secrets"}
 	if tier == "thorough" {
-		n, drivers = 400, []string{"memory", "secrets", "configmaps"}
+		n, drivers = 300, []string{"memory", "secrets", "configmaps"}
 	}
 	rng := rand.New(rand.NewSource(seed*15485863 + 12))
 	var out []core.Case
